@@ -116,6 +116,10 @@ impl<H: HashChain> HssPrivateKey<H> {
         let moved = core::mem::take(aux_data);
         *aux_data = &mut moved[..aux_len];
 
+        // A fresh buffer may hold anything after its marker byte; a non-zero entry would be taken for
+        // a cached tree node
+        aux_data.iter_mut().for_each(|byte| *byte = 0);
+
         let aux_level = hss_optimal_aux_level(aux_len, *top_lms_parameter, None);
         hss_store_aux_marker(aux_data, aux_level);
 
